@@ -124,6 +124,31 @@ Proof.
   cbn [out_of_domain ood_float is_cinst negb andb]. rewrite Hn, Hi, Hx. reflexivity.
 Qed.
 
+(* an explicit +-infinity is out of domain for Float and Double fields alike, scalar or at any position of a
+   sequence (instances of C09_refuse) *)
+Theorem C09_float_inf_refused : forall f ct m b, f_ty f = TFloat ct -> fct_ok ct = true ->
+  f64_is_inf b = true -> fst (set true f KAttr m (PFloat b)) <> None.
+Proof.
+  intros f ct m b Ht Hct Hi. apply set_refuse_full; rewrite Ht; [exact Hct|].
+  cbn [out_of_domain ood_float is_cinst negb andb].
+  assert (Hn : f64_is_nan b = false).
+  { unfold f64_is_inf, f64_is_nan in *. destruct (f64_exp b =? 2047); [|discriminate].
+    destruct (f64_man b =? 0); [reflexivity|discriminate]. }
+  rewrite Hn. cbn [negb andb]. destruct (snd ct =? 4) eqn:E4; [|exact Hi].
+  destruct (xnum_of_f64 b) as [|sg|mm ee] eqn:Ex.
+  - apply xnum_of_f64_nan in Ex. congruence.
+  - destruct sg; reflexivity.
+  - exfalso. assert (Hx : xnum_of_f64 b = XInf (f64_sign b)) by (apply xnum_of_f64_inf; auto). congruence.
+Qed.
+
+Example C09_ex_inf_in_sequence :
+  let fd := mkField 0 (TArr (EFloat 9 v_Double) 3) in let m := repeat 7 24 in
+  (* [1.0, nan, -inf] into a double[3]; [inf, 1.0] into the slice [1:3] *)
+  out_of_domain (f_ty fd) KAttr (PList [PFloat 4607182418800017408; PFloat canonical_nan64; PFloat 18442240474082181120]) = true /\
+  set true fd KAttr m (PList [PFloat 4607182418800017408; PFloat canonical_nan64; PFloat 18442240474082181120]) = (Some EValueError, m) /\
+  set true fd (KSlice (Some 1) (Some 3) None) m (PList [PFloat 9218868437227405312; PFloat 4607182418800017408]) = (Some EValueError, m).
+Proof. repeat split; vm_compute; reflexivity. Qed.
+
 (* The validation flag: for every well-nested sequence of enter / exit / exit-by-exception events, validation
    is on exactly when no disabling block is open - in particular after a block has been left by exception. *)
 Theorem C09_flag : forall t, well_nested t = true -> enabled t = spec_enabled t.
